@@ -52,6 +52,10 @@ type pipeCase struct {
 	// transparent compression enabled (threshold far above every generated value, so nothing is compressed): the commands
 	// documented as disabled under compression are stopped by the backend-side filter and answered with an error
 	Compress bool `json:"compress,omitempty"`
+	// StaleShift > 0 (two masters or more): once the proxy has loaded its table every slot moves to the next-but-StaleShift master
+	// (the cluster is still empty), and the table stays stale for the whole case (refresh spacing 2 min): every keyed request
+	// is answered MOVED by the node the proxy sends it to and resent; order and one-reply-per-request must not depend on that
+	StaleShift int `json:"stale_shift,omitempty"`
 	// the per-backend writer is held for this long each time it takes a request off its queue (pause point
 	// write.got-req), so that requests queue up behind it as they do when the backend socket is slow
 	SlowWriterUs int        `json:"slow_writer_us,omitempty"`
@@ -71,6 +75,8 @@ type pipeInfo struct {
 	hostileName bool
 	// a request was stopped by the backend-side filter (answered without being written to the backend)
 	stoppedByFilter bool
+	// every slot had moved after the table was loaded
+	stale bool
 }
 
 var disabledUnderCompression = map[string]bool{"append": true, "eval": true, "setbit": true, "getbit": true, "setrange": true, "getrange": true}
@@ -93,7 +99,11 @@ func checkPipe(c pipeCase) (inf pipeInfo, v *verdict) {
 	// The layout never changes in this part, so the periodic slot refresh runs at its production rate (2 min) and not at
 	// the 50 ms the simulator otherwise uses: a CLUSTER NODES request every 50 ms on a random backend connection would
 	// push along (flush) whatever an earlier request left behind there and hide a stuck reply.
-	of, om := sim.SetRefreshTimers(2*time.Minute, 5*time.Second)
+	spacing := 5 * time.Second
+	if c.StaleShift > 0 {
+		spacing = 2 * time.Minute
+	}
+	of, om := sim.SetRefreshTimers(2*time.Minute, spacing)
 	defer sim.SetRefreshTimers(of, om)
 	opts := sim.ProxyOpts{Seeds: w.Addrs(w.Masters())}
 	if c.Compress {
@@ -106,6 +116,15 @@ func checkPipe(c pipeCase) (inf pipeInfo, v *verdict) {
 	defer px.Stop(20 * time.Second)
 	if !px.WaitTableLoaded(1, 10*time.Second) {
 		return inf, &verdict{"table-not-loaded", "the routing table was not loaded within 10s on a healthy cluster"}
+	}
+	if ms := w.Masters(); c.StaleShift > 0 && len(ms) >= 2 {
+		pos := map[int]int{}
+		for i, m := range ms {
+			pos[m] = i
+		}
+		was := w.OwnerSnapshot()
+		w.AssignFunc(func(slot int) int { return ms[(pos[was[slot]]+c.StaleShift)%len(ms)] })
+		inf.stale = c.StaleShift%len(ms) != 0
 	}
 	if c.SlowWriterUs > 0 {
 		hold := time.Duration(c.SlowWriterUs) * time.Microsecond
@@ -329,6 +348,9 @@ func genReq(t *rapid.T, pool *gen.KeyPool) req {
 func genPipe(t *rapid.T) pipeCase {
 	c := pipeCase{Layout: sim.Layout{Masters: rapid.IntRange(1, 5).Draw(t, "masters"), Kind: rapid.SampledFrom([]string{"even", "striped", "random", "ranges"}).Draw(t, "kind"), Seed: rapid.Uint64().Draw(t, "lseed")}}
 	c.Compress = rapid.IntRange(0, 3).Draw(t, "compress") == 0
+	if rapid.IntRange(0, 3).Draw(t, "stale") == 0 {
+		c.StaleShift = rapid.IntRange(1, 4).Draw(t, "staleshift")
+	}
 	c.SlowWriterUs = rapid.SampledFrom([]int{0, 0, 0, 50, 300, 2000}).Draw(t, "slowwriter")
 	nc := rapid.IntRange(1, 4).Draw(t, "conns")
 	maxN := 80
@@ -405,6 +427,9 @@ func TestPipeline(t *testing.T) {
 		}
 		if inf.stoppedByFilter {
 			vh.Rec().Class("pipeline", "request_stopped_by_backend_filter_in_pipeline")
+		}
+		if inf.stale {
+			vh.Rec().Class("pipeline", "every_keyed_request_redirected_(stale_table)")
 		}
 		if inf.hostileName {
 			vh.Rec().Class("pipeline", "command_name_with_CR_LF_NUL")
